@@ -154,6 +154,72 @@ func registerNatives(e *Engine) {
 		const unixToInternal = (1969*365 + 1969/4 - 1969/100 + 1969/400) * 86400
 		return &Struct{F: []Value{nsec, tb.Add(sec, tb.ConstI(unixToInternal, 64)), Ptr{}}}
 	})
+	// ClockTime(ns): the instant "ns nanoseconds of model time": a time.Time whose arithmetic
+	// (Add, Sub, After, Before, Equal, Compare) the engine does on the nanosecond count itself,
+	// with no division by 1e9. Marked by a location object of its own.
+	vp("ClockTime", func(ex *Exec, site ssa.Instruction, args []Value) Value {
+		return ex.clockTime(ex.term(args[0]))
+	})
+	timeMethod := func(name string, f func(ex *Exec, a, b Value) (Value, bool)) {
+		full := "(time.Time)." + name
+		n[full] = func(ex *Exec, site ssa.Instruction, args []Value) Value {
+			var other Value
+			if len(args) > 1 {
+				other = args[1]
+			}
+			if _, ok := ex.clockNanos(args[0]); ok {
+				if v, done := f(ex, args[0], other); done {
+					return v
+				}
+			}
+			// any other time value: the library's own code
+			var fn *ssa.Function
+			if c, ok := site.(ssa.CallInstruction); ok {
+				fn = c.Common().StaticCallee()
+			}
+			if fn == nil || fn.String() != full {
+				if tp := ex.eng.Prog.ImportedPackage("time"); tp != nil && tp.Type("Time") != nil {
+					fn = ex.eng.Prog.LookupMethod(tp.Type("Time").Type(), tp.Pkg, name)
+				}
+			}
+			if fn == nil || fn.Blocks == nil {
+				ex.fail("time method %s is not loaded", full)
+			}
+			if ex.eng.Cfg.Merge[full] || (ex.autoMerge > 0 && ex.autoMergeable(fn)) {
+				return ex.callMerged(fn, args, nil, site)
+			}
+			return ex.callFunc(fn, args, nil, site)
+		}
+	}
+	timeMethod("Add", func(ex *Exec, a, b Value) (Value, bool) {
+		ns, _ := ex.clockNanos(a)
+		return ex.clockTime(ex.tb().Add(ns, ex.term(b))), true
+	})
+	timeMethod("Sub", func(ex *Exec, a, b Value) (Value, bool) {
+		x, _ := ex.clockNanos(a)
+		y, ok := ex.clockNanos(b)
+		if !ok {
+			return nil, false
+		}
+		return ex.tb().Sub(x, y), true
+	})
+	cmpTime := func(name string, mk func(tb *smt.Table, x, y *smt.Term) Value) {
+		timeMethod(name, func(ex *Exec, a, b Value) (Value, bool) {
+			x, _ := ex.clockNanos(a)
+			y, ok := ex.clockNanos(b)
+			if !ok {
+				return nil, false
+			}
+			return mk(ex.tb(), x, y), true
+		})
+	}
+	cmpTime("After", func(tb *smt.Table, x, y *smt.Term) Value { return tb.Slt(y, x) })
+	cmpTime("Before", func(tb *smt.Table, x, y *smt.Term) Value { return tb.Slt(x, y) })
+	cmpTime("Equal", func(tb *smt.Table, x, y *smt.Term) Value { return tb.Eq(x, y) })
+	cmpTime("Compare", func(tb *smt.Table, x, y *smt.Term) Value {
+		return tb.Ite(tb.Slt(x, y), tb.ConstI(-1, 64), tb.Ite(tb.Slt(y, x), tb.ConstI(1, 64), tb.ConstI(0, 64)))
+	})
+	timeMethod("IsZero", func(ex *Exec, a, b Value) (Value, bool) { return ex.tb().False(), true })
 	vp("EndPath", func(ex *Exec, site ssa.Instruction, args []Value) Value {
 		panic(pathEnd{kind: endReturn})
 	})
@@ -576,6 +642,27 @@ func registerNatives(e *Engine) {
 }
 
 // ---- helpers ----
+
+// clockTime / clockNanos: time.Time values of the model clock (see vp.ClockTime).
+func (ex *Exec) clockTime(ns *smt.Term) Value {
+	if ex.clockLoc == nil {
+		ex.clockLoc = ex.newObj(nil, &Struct{})
+		ex.clockLoc.Name = "model clock"
+	}
+	return &Struct{F: []Value{ex.tb().Const(0, 64), ns, Ptr{Obj: ex.clockLoc}}}
+}
+
+func (ex *Exec) clockNanos(v Value) (*smt.Term, bool) {
+	st, ok := v.(*Struct)
+	if !ok || len(st.F) != 3 || ex.clockLoc == nil {
+		return nil, false
+	}
+	p, ok := st.F[2].(Ptr)
+	if !ok || p.Obj != ex.clockLoc {
+		return nil, false
+	}
+	return st.F[1].(*smt.Term), true
+}
 
 func (ex *Exec) argName(v Value) string {
 	s, ok := v.(*Str)
